@@ -486,6 +486,19 @@ type clientOpts struct {
 	unread   bool          // before leaving, send one more complete request and do not read its response
 	deadline time.Duration // overall deadline of the session (default 15s)
 	h2cancel bool          // HTTP/2: after the requests, open one more stream and cancel it with RST_STREAM
+	trickle  bool          // kind stall: half of a real ClientHello at once, then one octet every 70 ms - never silent, never complete
+}
+
+// realHello returns the first flight of a crypto/tls client (one ClientHello record)
+func realHello() []byte {
+	c1, c2 := net.Pipe()
+	defer c1.Close()
+	defer c2.Close()
+	go tls.Client(c1, &tls.Config{InsecureSkipVerify: true, ServerName: "trickle.example"}).Handshake()
+	buf := make([]byte, 8192)
+	c2.SetReadDeadline(time.Now().Add(2 * time.Second))
+	n, _ := c2.Read(buf)
+	return buf[:n]
 }
 
 func rstClose(c net.Conn) {
@@ -550,6 +563,27 @@ func (s *Scenario) run(kind string, raw net.Conn, id string, o clientOpts) (stri
 	}
 	switch kind {
 	case "stall":
+		if o.trickle {
+			// the handshake timeout bounds the whole handshake, not the gaps between the client's octets
+			if h := realHello(); len(h) > 160 {
+				c.Write(h[:len(h)/2])
+			trickle:
+				for i := 0; i < 70 && len(h)/2+i+1 < len(h)-1; i++ {
+					if o.hold != nil {
+						select {
+						case <-o.hold:
+							break trickle
+						case <-time.After(70 * time.Millisecond):
+						}
+					} else {
+						time.Sleep(70 * time.Millisecond)
+					}
+					if _, err := c.Write(h[len(h)/2+i : len(h)/2+i+1]); err != nil {
+						break
+					}
+				}
+			}
+		}
 		if o.hold != nil {
 			<-o.hold
 		} else {
